@@ -313,6 +313,14 @@ PROPS = {
         "verus": [V("driver_io")],
         "not_decided": ["finish/stopped futures over quinn", "signal delivery"],
     },
+    "C09": {
+        "level": "proof",
+        "claim": "Only the ATTRIBUTION half of the property ('never misattributed'), as a chain of per-function contracts for every input: (1) the error the driver ends with is what each stream loop / handler computed from the peer's behaviour (units driver_streams, driver: application close with the peer's exact code and reason, the prescribed protocol error, or NotConnected); (2) Worker::run stores exactly that error as the driver result and closes the QUIC connection with H3_NO_ERROR after a peer close resp. the registry code of the protocol error - never another code; (3) every Driver operation that waits on the worker (accept_settings, accept_session, register_session, accept_uni, accept_bi, receive_datagram) fails ONLY with that driver result; (4) every Connection operation turns it into the ConnectionError naming the same cause (ApplicationClosed with the same code and reason, LocalH3Error with the same code, otherwise the QUIC-level cause), and a QUIC-level close maps to its own arm (Kani on From<quinn::ConnectionError>: an application close keeps its 62-bit code and reason, timeout / local close / reset / version mismatch keep their own arm).",
+        "note": "NOT decided (no per-call contract expresses them; see DESIGN): that every pending and later call completes, in bounded time, without hanging or panicking; that background processing stops when the handles are dropped; what the peer sees then. Assumed stand-ins: tokio channels / watch (SharedResult: first set wins), quinn handles; Worker::run_impl's select! loop is an unknown function returning the ending error (its branches - handlers and stream loops - are under contract separately, their interleaving is not).",
+        "kani": DRIVER_CLOSE,
+        "verus": [V("driver"), V("connection"), V("driver_streams")],
+        "not_decided": ["prompt / total termination (liveness)", "no hang / no panic", "drop of all handles stops the worker"],
+    },
     "C10": {
         "level": "proof",
         "claim": "Decision logic of certificate-hash pinning, for EVERY leaf certificate, handshake time and pinned set (Verus unit tls_pin on the extracted body of ServerHashVerification::verify_server_cert): the verifier answers Ok IFF the leaf parses AND not_before <= now <= not_after AND (not_after - not_before) exists and is <= 14 days (the constant SELF_MAX_VALIDITY is proved to be 14 days) AND the key algorithm is id-ecPublicKey with parameters prime256v1 AND the leaf's SHA-256 is in the configured set; no value of the other inputs lets a certificate failing one condition through.",
@@ -385,7 +393,7 @@ PROPS = {
     },
     "C18": {
         "level": "proof",
-        "claim": "StatusCode: every numeric constructor yields Ok(c) iff 100 <= v <= 599 with c == v (complete), is_successful iff 200..=299, FromStr accepts exactly decimal strings of values in 100..=599; admission predicates for ALL header maps (Verus unit session): a request is admitted iff :method CONNECT, :scheme https, :protocol webtransport, :authority and :path present, each refusal names the documented cause, the request keeps the whole map; a response is accepted iff :status is present and a valid status, depending on nothing else. Driver (Verus units driver, endpoint): a request that is not a WebTransport extended CONNECT is refused ON ITS OWN STREAM (H3_REQUEST_REJECTED when the method is not CONNECT, H3_MESSAGE_ERROR otherwise - the only codes the assumed stop accepts for that request) and the connection goes on (Ok), admitted requests are handed to the application queue; on the client a response counts as acceptance only with a valid 2xx status (see C02). The canned answers are 200 (ok) and 403 / 404 / 429 (forbidden, not_found, too_many_requests): a refusal is never a 2xx (unit session).",
+        "claim": "StatusCode: every numeric constructor yields Ok(c) iff 100 <= v <= 599 with c == v (complete), is_successful iff 200..=299, FromStr accepts exactly decimal strings of values in 100..=599; admission predicates for ALL header maps (Verus unit session): a request is admitted iff :method CONNECT, :scheme https, :protocol webtransport, :authority and :path present, each refusal names the documented cause, the request keeps the whole map; a response is accepted iff :status is present and a valid status, depending on nothing else. Driver (Verus units driver, endpoint): a request that is not a WebTransport extended CONNECT is refused ON ITS OWN STREAM (H3_MESSAGE_ERROR for a malformed request - a mandatory pseudo-header missing, RFC 9114 4.1.2 -, H3_MESSAGE_ERROR or H3_REQUEST_REJECTED for a well-formed request this endpoint does not serve: the only codes the assumed stop accepts for that request) and the connection goes on (Ok), admitted requests are handed to the application queue; on the client a response counts as acceptance only with a valid 2xx status (see C02). The canned answers are 200 (ok) and 403 / 404 / 429 (forbidden, not_found, too_many_requests): a refusal is never a 2xx (unit session).",
         "note": "FromStr bounded to strings <= 5 bytes (all u16 decimals; u16::from_str trusted beyond). Known finding: StatusCode::default() == 0. Not under contract: SessionRequest::insert / Headers::insert (HashMap<String,String> + iterator closure: reserved-header immutability is NOT decided), SessionRequest::new (url crate), server refusal codes and connect()'s reaction (async driver).",
         "kani": STATUS_KANI + [K("p_reserved_headers_list", "RESERVED_HEADERS is exactly the five WebTransport pseudo-headers", [P + "session.rs::SessionRequest::RESERVED_HEADERS"])],
         "verus": [V("session"), V("driver"), V("endpoint")],
@@ -459,7 +467,6 @@ NOT_APPLICABLE = {
     "C05": "property of tokio::select! schedules in Worker::run_impl over concrete quinn streams; Kani has no async runtime/threads and quinn streams cannot be constructed without a connection. The pieces it rests on are under contract elsewhere: leaf futures (C15), the stream run loops and synchronous handlers of the driver as sequential compositions over every sequence of read results (C04, C12, C13).",
     "C07": "liveness/independence over task interleavings (stalled streams never block others): whole-history concurrency property, outside contract-based deductive verification (no Kani threads, Verus would need permission types on tokio internals).",
     "C08": "exactly-once delivery over mpsc queues, cancellation and multi-task accept: whole-history concurrency property, no per-call contract expresses it.",
-    "C09": "prompt, total termination over all pending futures: liveness + concurrency over tokio/quinn, not a per-call contract.",
 }
 
 
